@@ -36,6 +36,7 @@ type c19Case struct {
 	Entries []c19Entry `json:"entries"`
 	Want    string     `json:"want,omitempty"` // expected media type for ooxml/odf kinds
 	Prev    []c19Entry `json:"prev,omitempty"` // another archive that went through the caller's buffer just before
+	Pinned  bool       `json:"pinned,omitempty"` // a pinned known-finding case: never excluded
 }
 
 func c19Build(es []c19Entry) ([]byte, error) {
@@ -305,6 +306,13 @@ func c19Check(c c19Case) vfResult {
 			return vfResult{Skip: "embedded-zip-signature-in-data"}
 		}
 	}
+	// known finding F11 (see known_findings.json): the OpenDocument / EPUB signatures compare the
+	// bytes at offset 30 without looking at the name length, so a first entry whose NAME merely
+	// begins with "mimetype<registered type>" is taken for such a package. Excluded by
+	// construction, counted; the pinned case itself is evaluated and reported as KNOWN-FINDING.
+	if !c.Pinned && names[0] != "mimetype" && len(raw) > 38 && bytes.HasPrefix(raw[30:], []byte("mimetypeapplication/")) {
+		return vfResult{Skip: "known-finding-F11:first-entry-name-begins-with-mimetype+type"}
+	}
 	m := vfDetectAt(raw, 0)
 	got := m.String()
 	// the same archive handed over in a buffer the caller re-uses for every archive gets the same
@@ -502,6 +510,27 @@ func c19Check(c c19Case) vfResult {
 }
 
 func TestVerif_C19(t *testing.T) {
+	defer vfStats.dump()
+	vfStats.Property = "C19"
+	if !vfDictSweep(t, "C19", "gen", vfDictLits, func(tok string) []c19Case {
+		name := strings.Map(func(r rune) rune {
+			if r < 0x20 || r > 0x7e || r == '\\' {
+				return -1
+			}
+			return r
+		}, tok)
+		body := vfB(strings.ReplaceAll(tok, "PK", "pk"))
+		var out []c19Case
+		if name != "" && !strings.HasSuffix(name, "/") && !strings.HasPrefix(name, "/") && !strings.Contains(name, "PK") {
+			out = append(out, c19Case{Kind: "free", Entries: []c19Entry{{Name: name, Method: 8, Stream: true, Body: vfB("data")}}},
+				c19Case{Kind: "free", Entries: []c19Entry{{Name: "readme.txt", Method: 0, Body: vfB("x")}, {Name: "dir/" + name, Method: 8, Body: vfB("data")}}})
+		}
+		out = append(out, c19Case{Kind: "free", Entries: []c19Entry{{Name: "a.bin", Method: 0, Body: body}, {Name: "b.bin", Method: 0, Stream: true, Body: body}}},
+			c19Case{Kind: "free", Entries: []c19Entry{{Name: "a.bin", Method: 0, Body: vfB("x"), Extra: vfB("\xfe\xca\x00\x00")}, {Name: "c.txt", Method: 8, Body: body, Extra: body[:min(len(body), 20)]}}})
+		return out
+	}, c19Check, "each literal as an entry name (first and below a directory), as stored entry data, and as an extra field") {
+		return
+	}
 	vfRun(t, vfSub[c19Case]{Prop: "C19", Name: "gen", Checks: vfN(40000, 6000000), Gen: c19Gen, Check: c19Check,
 		Sample: func(c c19Case) any {
 			var es []string
